@@ -1075,6 +1075,14 @@ func (c *EvalCtx) call(e *ast.CallExpr) tv {
 			return tv{p.Ge(x, c.old.heapTop), types.Typ[types.Bool]}
 		case "implies":
 			return tv{p.Implies(c.asTerm(c.eval(e.Args[0])), c.asTerm(c.eval(e.Args[1]))), types.Typ[types.Bool]}
+		case "errvar":
+			// errvar("pkg.Var"): a package-level error variable named without importing its package
+			if lit, ok := e.Args[0].(*ast.BasicLit); ok && lit.Kind == token.STRING {
+				if name, err := strconv.Unquote(lit.Value); err == nil {
+					return tv{ex.sentinelByName(name), types.Universe.Lookup("error").Type()}
+				}
+			}
+			c.errf("errvar: string literal expected")
 		case "isErr":
 			return tv{ex.isErr(c.asTerm(c.eval(e.Args[0])), c.asTerm(c.eval(e.Args[1]))), types.Typ[types.Bool]}
 		case "cast":
